@@ -252,6 +252,7 @@ fn norm(b: &[u8]) -> Vec<u8> {
 
 #[derive(Clone, Debug, Default)]
 pub struct Stats {
+    pub cli_bad_stderr: u64,
     pub linked_sources: u64,
     pub steps: u64,
     pub steps_ok: u64,
@@ -314,6 +315,7 @@ impl Stats {
         self.deleted_in_target_tolerated += o.deleted_in_target_tolerated;
         self.cli_runs += o.cli_runs;
         self.linked_sources += o.linked_sources;
+        self.cli_bad_stderr += o.cli_bad_stderr;
         self.cli_skipped += o.cli_skipped;
         self.reference_runs += o.reference_runs;
         self.reference_panics += o.reference_panics;
@@ -706,21 +708,28 @@ impl HistExec {
                     if self.annotate {
                         c.arg("-a");
                     }
-                    // flags that only concern logging must not matter
-                    if hash_seed % 3 == 0 {
-                        c.arg("-v");
-                    }
-                    if hash_seed % 4 == 1 {
-                        c.arg("-vv");
-                    }
-                    if hash_seed % 5 == 0 {
-                        c.arg("--no-color");
-                    }
-                    if hash_seed % 7 == 0 {
-                        c.arg("-l");
-                    }
-                    if hash_seed % 11 == 0 {
-                        c.arg("-d").arg("--no-module-path");
+                    // sometimes a standard error that cannot be written (full disk behind a
+                    // redirected log, a pipe whose reader has gone): a failure must still be a
+                    // failure.  Without logging flags then — a logger that cannot log is
+                    // allowed to complain.
+                    let bad_stderr = (hash_seed >> 5) % 4 == 0;
+                    if !bad_stderr {
+                        // flags that only concern logging must not matter
+                        if hash_seed % 3 == 0 {
+                            c.arg("-v");
+                        }
+                        if hash_seed % 4 == 1 {
+                            c.arg("-vv");
+                        }
+                        if hash_seed % 5 == 0 {
+                            c.arg("--no-color");
+                        }
+                        if hash_seed % 7 == 0 {
+                            c.arg("-l");
+                        }
+                        if hash_seed % 11 == 0 {
+                            c.arg("-d").arg("--no-module-path");
+                        }
                     }
                     c.stdin(std::process::Stdio::null()).stdout(std::process::Stdio::null()).stderr(std::process::Stdio::null());
                     unsafe {
@@ -730,12 +739,20 @@ impl HistExec {
                             Ok(())
                         });
                     }
-                    // sometimes a standard error that cannot be written (full disk behind a
-                    // redirected log): a failure must still be a failure.  Only without logging
-                    // flags — a logger that cannot log is allowed to complain.
-                    if hash_seed % 13 == 0 && hash_seed % 3 != 0 && hash_seed % 4 != 1 && hash_seed % 7 != 0 && hash_seed % 11 != 0 {
-                        if let Ok(f) = std::fs::OpenOptions::new().write(true).open("/dev/full") {
-                            c.stderr(f);
+                    if bad_stderr {
+                        if (hash_seed >> 7) % 2 == 0 {
+                            if let Ok(f) = std::fs::OpenOptions::new().write(true).open("/dev/full") {
+                                c.stderr(f);
+                                self.stats.cli_bad_stderr += 1;
+                            }
+                        } else {
+                            let mut fds = [0i32; 2];
+                            if unsafe { libc::pipe2(fds.as_mut_ptr(), libc::O_CLOEXEC) } == 0 {
+                                unsafe { libc::close(fds[0]) };
+                                use std::os::fd::FromRawFd;
+                                c.stderr(unsafe { std::process::Stdio::from_raw_fd(fds[1]) });
+                                self.stats.cli_bad_stderr += 1;
+                            }
                         }
                     }
                     match c.status() {
